@@ -6,3 +6,4 @@ pub mod families;
 pub mod msgs;
 pub mod names;
 pub mod seeds;
+pub mod wirex;
